@@ -830,6 +830,13 @@ func (x *X) finish() []tr.Line {
 
 // cleanup releases everything and forces the engine down (not part of the trace).
 func (x *X) cleanup() {
+	// let the pending channel-closure checks of delivered registration results finish (at most 200 ms each)
+	cc := make(chan struct{})
+	go func() { x.closeChecks.Wait(); close(cc) }()
+	select {
+	case <-cc:
+	case <-time.After(500 * time.Millisecond):
+	}
 	x.mu.Lock()
 	x.endEvents = len(x.events) // the oracles judge what happened before the harness tears the case down
 	x.endWorkers = map[int]bool{}
